@@ -1,17 +1,23 @@
 import IbModel.Util.Wire
 import IbModel.Model.Window
+import IbModel.Model.WindowPlan
 /-!
 Driver handlers for C13.
 
 * `TUMBLE <ts> <size> <off>` ↦ `W <start> <end>` | `PANIC`   (`tumble`: current code, overflow-checking build)
 * `TUMBLE-WRAP …` (`tumbleWrapping`: current code, release arithmetic), `TUMBLE-LEGACY …` (`Legacy.tumble`:
   pre-fix code, overflow-checking), `TUMBLE-LEGACY-WRAP …` (`Legacy.tumbleWrapping`) — same answer format; the
-  harness compiles the text of `src/window.rs` (current / pre-fix revision from git) under those profiles
+  harness compiles the text of `src/window.rs` (current / vendored pre-fix text) under those profiles
+* `WNEW <s> <e>` (`Window.new?`, debug assertions on) / `WNEW-REL <s> <e>` (`Window.newRelease`)
+* `WPLAN <op> <src>` ↦ the node kinds of the chain the runner executes for that pipeline, comma separated
+  (`planKinds`: the planner model `optimise` applied to the builders' chain `builderChain`)
 * `WCMP <s1> <e1> <s2> <e2>` ↦ `<T|F> <LT|EQ|GT> <T|F>` (`==`, `cmp`, hash consistent with `==`)
-* `WGROUP <kbw|gbw|kkbw|gbkw> <size> <off> <seq|par:T:P|par:T:none:EFF> <d|t|a> <rows>` ↦ `OK <rows>` | `PANIC`
-  (row syntax: see `harness/src/c13.rs`; the model never answers `ERR …`). Grouped answers are canonicalised
-  exactly like the harness canonicalises the real output: groups sorted by key (hash-map order is not
-  modelled), group CONTENTS left in the order produced (input order — clause 2 of `groupByWindow_exact`).
+* `WGROUP <op> <size> <off> <mode> <src> <rows>` ↦ `OK <rows>` | `PANIC`, `op` one of `kbw gbw gbwv gbwl gbws gbwj`
+  (unkeyed; `src` `d|t|a`) or `kkbw gbkw` (keyed; `src` `d|k`), `mode` one of `seq`, `par:T:P`, `par:T:none`, `ckseq`,
+  `ckpar:T:P` (row syntax: see `harness/src/c13.rs`; the model never answers `ERR …`). Grouped answers are
+  canonicalised exactly like the harness canonicalises the real output: groups sorted by key (hash-map order is not
+  modelled) — except `gbws`, whose row order is the model's sort by `Window.cmpImpl` —, group contents sorted (the
+  order inside a group is not part of the property).
 -/
 namespace IB.D13
 open IB.Wire IB.Window
@@ -39,35 +45,39 @@ def handleTumbleLegacy : List String → String := tumbleWith Legacy.tumble
 def handleTumbleLegacyWrap : List String → String := tumbleWith Legacy.tumbleWrapping
 
 /-- `key:ts:val` -/
-def krow? (s : String) : Option (Int × Timestamped Int) :=
+def krow? (s : String) : Option (Int × Nat × Int) :=
   match s.splitOn ":" with
-  | [k, t, v] => do pure (← parseInt? k, ⟨← u64? t, ← parseInt? v⟩)
+  | [k, t, v] => do pure (← parseInt? k, ← u64? t, ← parseInt? v)
   | _ => none
 
 def rows? {α : Type} (p : String → Option α) (s : String) : Option (List α) :=
   if s == "-" then some [] else (s.splitOn ",").mapM p
 
-/-- `seq` ↦ one partition holding everything; `par:T:P` ↦ `exec_par`'s split of the source into `P`
-    (`Some(P)`, 0 included); `par:T:none:EFF` ↦ the split into `EFF`, the count the real planner/runner
-    resolved `None` to (the answer does not depend on it: `groupByWindow_seq_eq_par`) -/
+/-- `seq` / `ckseq` ↦ one partition holding everything; `par:T:P` / `ckpar:T:P` ↦ `exec_par`'s split of the source
+    into `P` (`Some(P)`, 0 included); `par:T:none` ↦ the runner resolves `None` to a machine-dependent count (the
+    planner's suggestion or 2 × cores) that is deliberately NOT part of the request: the model evaluates with 32 —
+    by `keyByWindow_seq_eq_par` / `groupByWindow_seq_eq_par` the answer is the same for every count.
+    Checkpointing is transparent in the model (the `ck*` modes run the same plan). -/
 def parts? {α : Type} (mode : String) (xs : List α) : Option (List (List α)) :=
-  if mode == "seq" then some [xs]
+  if mode == "seq" || mode == "ckseq" then some [xs]
   else match mode.splitOn ":" with
-    | ["par", t, p] =>
-      match parseNat? t, parseNat? p with
-      | some _, some p => some (sourceParts xs p)
-      | _, _ => none
-    | ["par", t, "none", eff] =>
-      match parseNat? t, parseNat? eff with
-      | some _, some p => some (sourceParts xs p)
-      | _, _ => none
+    | [m, t, "none"] =>
+      if m == "par" then (parseNat? t).map (fun _ => sourceParts xs 32) else none
+    | [m, t, p] =>
+      if m == "par" || m == "ckpar" then
+        match parseNat? t, parseNat? p with
+        | some _, some p => some (sourceParts xs p)
+        | _, _ => none
+      else none
     | _ => none
 
 def joinOrDash (l : List String) : String := if l.isEmpty then "-" else ",".intercalate l
 
 def showW (w : Window) : String := s!"{w.start}-{w.stop}"
-def dots (vs : List Int) : String := ".".intercalate (vs.map toString)
+def sortInts (vs : List Int) : List Int := vs.mergeSort (fun a b => decide (a ≤ b))
+def dots (vs : List Int) : String := ".".intercalate ((sortInts vs).map toString)
 
+/-- canonical row order of the harness (`sort` on `(u64, u64)` tuples); `gbws` uses `sortByWindow` instead -/
 def leW (a b : Window) : Bool := a.start < b.start || (a.start == b.start && a.stop ≤ b.stop)
 def leKW (a b : Int × Window) : Bool := a.1 < b.1 || (a.1 == b.1 && leW a.2 b.2)
 
@@ -80,66 +90,102 @@ def rawRow? (s : String) : Option (Nat × Int) :=
 def showRows (rs : List (Window × Int)) : String :=
   "OK " ++ joinOrDash (rs.map (fun r => s!"{showW r.1}:{r.2}"))
 
-def showGroups (gs : List (Window × List Int)) : String :=
-  let gs := gs.mergeSort (fun a b => leW a.1 b.1)
+def showGroupRows (gs : List (Window × List Int)) : String :=
   "OK " ++ joinOrDash (gs.map (fun g => s!"{showW g.1}:{dots g.2}"))
 
-/-- unkeyed ops over source partitions of raw `(ts, val)` rows; `src` selects the helper that builds
-    the `Timestamped` collection (stateless, applied per partition like every `map`) -/
-def unkeyed (op src : String) (size off : Nat) (parts : List (List (Nat × Int))) : String :=
-  if src == "d" || src == "t" then
-    let tparts : List (List (Timestamped Int)) :=
-      if src == "d" then parts.map (fun p => p.map (fun r => ⟨r.1, r.2⟩)) else parts.map toTimestamped
-    if op == "kbw" then
-      match keyByWindowPar size off tparts with
-      | none => "PANIC"
-      | some rs => showRows rs
-    else
-      match groupByWindow size off tparts with
-      | none => "PANIC"
-      | some gs => showGroups gs
-  else if src == "a" then
-    let tparts : List (List (Timestamped (Nat × Int))) := parts.map (attachTimestamps Prod.fst)
-    if op == "kbw" then
-      match keyByWindowPar size off tparts with
-      | none => "PANIC"
-      | some rs => showRows (rs.map (fun r => (r.1, r.2.2)))
-    else
-      match groupByWindow size off tparts with
-      | none => "PANIC"
-      | some gs => showGroups (gs.map (fun g => (g.1, g.2.map Prod.snd)))
-  else "BAD-OP"
+def showGroups (gs : List (Window × List Int)) : String :=
+  showGroupRows (gs.mergeSort (fun a b => leW a.1 b.1))
+
+/-- how the `PCollection<Timestamped<i64>>` is built from the raw `(ts, val)` rows of one partition (every helper is a
+    stateless `map`, applied per partition): `d` direct, `t` `to_timestamped`, `a` `attach_timestamps(|r| r.0)` followed
+    by the `map` that drops the carried row -/
+def buildTs (src : String) (p : List (Nat × Int)) : Option (List (Timestamped Int)) :=
+  if src == "d" then some (p.map (fun r => ⟨r.1, r.2⟩))
+  else if src == "t" then some (toTimestamped p)
+  else if src == "a" then some ((attachTimestamps Prod.fst p).map (fun ev => ⟨ev.ts, ev.value.2⟩))
+  else none
+
+/-- keyed: `d` direct, `k` = `attach_timestamps(|r| r.1).key_by(|ev| ev.value.0).map_values(drop the carried row)` -/
+def buildKts (src : String) (p : List (Int × Nat × Int)) : Option (List (Int × Timestamped Int)) :=
+  if src == "d" then some (p.map (fun r => (r.1, ⟨r.2.1, r.2.2⟩)))
+  else if src == "k" then
+    some ((keyBy (fun ev : Timestamped (Int × Nat × Int) => ev.value.1) (attachTimestamps (fun r => r.2.1) p)).map
+      (fun kv => (kv.1, ⟨kv.2.ts, kv.2.value.2.2⟩)))
+  else none
+
+def unkeyed (op : String) (size off : Nat) (tparts : List (List (Timestamped Int))) : String :=
+  if op == "kbw" then
+    match keyByWindowPar size off tparts with
+    | none => "PANIC"
+    | some rs => showRows rs
+  else
+    match groupByWindow size off tparts with
+    | none => "PANIC"
+    | some gs =>
+      if op == "gbw" || op == "gbwv" then showGroups gs            -- `map_values(clone).filter_values(true)` = identity
+      else if op == "gbws" then showGroupRows (sortByWindow gs)     -- rows in the order of `impl Ord for Window`
+      else if op == "gbwl" then
+        showRows ((sumGroups gs).mergeSort (fun a b => leW a.1 b.1 && (a.1 != b.1 || a.2 ≤ b.2)))
+      else if op == "gbwj" then
+        -- both join sides are `group_by_window` of the same events
+        let rows := (Window.joinInner gs gs).mergeSort (fun a b => leW a.1 b.1)
+        "OK " ++ joinOrDash (rows.map (fun r => s!"{showW r.1}:{dots r.2.1}|{dots r.2.2}"))
+      else "BAD-OP"
 
 def handleWGroup : List String → String
   | [op, size, off, mode, src, rows] =>
     match u64? size, u64? off with
     | some size, some off =>
-      if op == "kbw" || op == "gbw" then
+      if op == "kbw" || op == "gbw" || op == "gbwv" || op == "gbws" || op == "gbwl" || op == "gbwj" then
         match rows? rawRow? rows with
         | none => "BAD-OP"
         | some xs =>
           match parts? mode xs with
           | none => "BAD-OP"
-          | some parts => unkeyed op src size off parts
-      else if (op == "kkbw" || op == "gbkw") && src == "d" then
+          | some parts =>
+            match parts.mapM (buildTs src) with
+            | none => "BAD-OP"
+            | some tparts => unkeyed op size off tparts
+      else if op == "kkbw" || op == "gbkw" then
         match rows? krow? rows with
         | none => "BAD-OP"
         | some xs =>
           match parts? mode xs with
           | none => "BAD-OP"
-          | some parts =>
-            if op == "kkbw" then
-              match keyByKeyAndWindowPar size off parts with
-              | none => "PANIC"
-              | some rs => "OK " ++ joinOrDash (rs.map (fun r => s!"{r.1.1}@{showW r.1.2}:{r.2}"))
-            else
-              match groupByKeyAndWindow size off parts with
-              | none => "PANIC"
-              | some gs =>
-                let gs := gs.mergeSort (fun a b => leKW a.1 b.1)
-                "OK " ++ joinOrDash (gs.map (fun g => s!"{g.1.1}@{showW g.1.2}:{dots g.2}"))
+          | some rparts =>
+            match rparts.mapM (buildKts src) with
+            | none => "BAD-OP"
+            | some parts =>
+              if op == "kkbw" then
+                match keyByKeyAndWindowPar size off parts with
+                | none => "PANIC"
+                | some rs => "OK " ++ joinOrDash (rs.map (fun r => s!"{r.1.1}@{showW r.1.2}:{r.2}"))
+              else
+                match groupByKeyAndWindow size off parts with
+                | none => "PANIC"
+                | some gs =>
+                  let gs := gs.mergeSort (fun a b => leKW a.1 b.1)
+                  "OK " ++ joinOrDash (gs.map (fun g => s!"{g.1.1}@{showW g.1.2}:{dots g.2}"))
       else "BAD-OP"
     | _, _ => "BAD-OP"
+  | _ => "BAD-OP"
+
+def handleWNew (release : Bool) : List String → String
+  | [s, e] =>
+    match u64? s, u64? e with
+    | some s, some e =>
+      if release then (let w := Window.newRelease s e; s!"W {w.start} {w.stop}")
+      else match Window.new? s e with
+        | some w => s!"W {w.start} {w.stop}"
+        | none => "PANIC"
+    | _, _ => "BAD-OP"
+  | _ => "BAD-OP"
+
+def handleWPlan : List String → String
+  | [op, src] =>
+    match planKinds 10 25 op src with
+    | some ks => ",".intercalate ks
+    | none => "BAD-OP"
   | _ => "BAD-OP"
 
 def ordStr : Ordering → String
@@ -162,6 +208,7 @@ def handleWCmp : List String → String
 def handlers : List (String × (List String → String)) :=
   [("TUMBLE", handleTumble), ("TUMBLE-WRAP", handleTumbleWrap), ("TUMBLE-LEGACY", handleTumbleLegacy),
    ("TUMBLE-LEGACY-WRAP", handleTumbleLegacyWrap), ("WGROUP", handleWGroup),
-   ("WCMP", handleWCmp)]
+   ("WCMP", handleWCmp), ("WNEW", handleWNew false), ("WNEW-REL", handleWNew true),
+   ("WPLAN", handleWPlan)]
 
 end IB.D13
